@@ -647,7 +647,7 @@ def finish(ctx):
 
 
 PARTS = {
-  "main": Part("main", check, strategy=strategy_for("main"), n=(4000, 120000), shrinker=G.simplifications,
+  "main": Part("main", check, strategy=strategy_for("main"), n=(3000, 120000), shrinker=G.simplifications,
                required_labels=("sub:cumulative", "sub:extension-blocks=1", "sub:extension-blocks=3", "block:user-data", "sub:double-height",
                                 "text:diacritic-pair", "text:upper-half", "code:foreground", "code:background", "code:italic-underline",
                                 "file:some-dropped", "start:tcp", "start:explicit", "sub:sn>=257", "gap:single-code", "gap:single-space")),
